@@ -430,6 +430,7 @@ func main() {
 	files = append(files, genPlugin(*repo))
 	files = append(files, genNetstate(*repo))
 	files = append(files, genMetrics(*repo))
+	files = append(files, genMain(*repo))
 
 	if len(errs) > 0 {
 		for _, e := range errs {
@@ -1527,6 +1528,78 @@ func genMetrics(repo string) *leanFile {
 		})
 		l.Bool("metricsGated", gates["/metrics"] == "cfg.Debug.Prometheus", "NewHandler: /metrics registered only under cfg.Debug.Prometheus")
 		l.Bool("pprofGated", gates["/debug/pprof/"] == "cfg.Debug.PProf", "NewHandler: /debug/pprof/ registered only under cfg.Debug.PProf")
+	}
+	return l
+}
+
+// ---------------------------------------------------------------------------------------------
+// cmd/corerad/main.go: how the pieces are wired together
+
+func genMain(repo string) *leanFile {
+	l := &leanFile{name: "Main"}
+	mf := load(repo, "cmd/corerad/main.go")
+	sf := load(repo, "internal/corerad/signals_unix.go")
+	if mf == nil || sf == nil {
+		return l
+	}
+	fd := mf.fn("main")
+	if fd == nil {
+		return l
+	}
+	var calls []*ast.CallExpr
+	ast.Inspect(fd.Body, func(n ast.Node) bool {
+		if c, ok := n.(*ast.CallExpr); ok {
+			calls = append(calls, c)
+		}
+		return true
+	})
+	find := func(name string) *ast.CallExpr {
+		for _, c := range calls {
+			if exprString(c.Fun) == name {
+				return c
+			}
+		}
+		return nil
+	}
+	arg := func(c *ast.CallExpr, i int) string {
+		if c == nil || i >= len(c.Args) {
+			return ""
+		}
+		return exprString(c.Args[i])
+	}
+	// the epoch handed to the parser is the start-up instant (never the zero time)
+	l.Bool("epochIsStartTime", arg(find("config.Parse"), 1) == "time.Now()", "main: config.Parse(f, time.Now())")
+	// metrics go through a pedantic Prometheus registry, the one the HTTP handler serves
+	regVar := ""
+	ast.Inspect(fd.Body, func(n ast.Node) bool {
+		if as, ok := n.(*ast.AssignStmt); ok && len(as.Lhs) == 1 && len(as.Rhs) == 1 {
+			if c, ok := as.Rhs[0].(*ast.CallExpr); ok && exprString(c.Fun) == "prometheus.NewPedanticRegistry" {
+				regVar = exprString(as.Lhs[0])
+			}
+		}
+		return true
+	})
+	l.Bool("pedanticRegistry", regVar != "" && arg(find("metricslite.NewPrometheus"), 0) == regVar && arg(find("promhttp.HandlerFor"), 0) == regVar,
+		"main: one prometheus.NewPedanticRegistry() feeds metricslite.NewPrometheus and promhttp.HandlerFor")
+	// metrics and the debug handler read the same State and the same interfaces
+	nm, nh := find("corerad.NewMetrics"), find("crhttp.NewHandler")
+	l.Bool("sameStateAndConfig", nm != nil && nh != nil && arg(nm, 3) == arg(nh, 1) && arg(nm, 4) == "cfg.Interfaces" && arg(nh, 2) == "*cfg",
+		"main: NewMetrics(…, state, cfg.Interfaces) and NewHandler(ll, state, *cfg, …) share state and configuration")
+	// Serve runs exactly the tasks BuildTasks derives from the parsed configuration
+	sv := find("s.Serve")
+	l.Bool("serveRunsBuildTasks", sv != nil && strings.HasPrefix(arg(sv, 2), "s.BuildTasks(*cfg"), "main: s.Serve(sigC, n, s.BuildTasks(*cfg, h))")
+	l.Bool("signalsFromSignals", arg(find("signal.Notify"), 1) == "corerad.Signals()", "main: signal.Notify(sigC, corerad.Signals()...)")
+	if fd := sf.fn("Signals"); fd != nil {
+		var sigs []string
+		ast.Inspect(fd.Body, func(n ast.Node) bool {
+			if cl, ok := n.(*ast.CompositeLit); ok {
+				for _, e := range cl.Elts {
+					sigs = append(sigs, exprString(e))
+				}
+			}
+			return true
+		})
+		l.Strs("signals", sigs, "Signals(): the signals which stop the server")
 	}
 	return l
 }
